@@ -681,6 +681,13 @@ func parseMacro(text, where string) (*Macro, error) {
 	re := regexp.MustCompile(`^(\w+)\(([\w, ]*)\)\s*=\s*(.+)$`)
 	m := re.FindStringSubmatch(text)
 	if m == nil {
+		// constant: name = expr
+		re0 := regexp.MustCompile(`^(\w+)\s*=\s*(.+)$`)
+		if m0 := re0.FindStringSubmatch(text); m0 != nil {
+			m = []string{m0[0], m0[1], "", m0[2]}
+		}
+	}
+	if m == nil {
 		return nil, fmt.Errorf("%s: bad define (want: name(params) = expr)", where)
 	}
 	e, err := parseExpr(m[3], where)
